@@ -37,8 +37,13 @@ PROBES = ['generated', 'elaborated', 'shared_module_reused', 'reg_reset_value', 
 
 
 def emittable_kinds():
-    comb = [k for k in kinds_with(seq=False) if 'rot' not in k.tags]
-    seqk = [k for k in kinds_with(seq=True) if not set(k.tags) & {'simonly', 'noverilog'}]
+    kf = known_findings()
+    comb = [k for k in kinds_with(seq=False, include=('extra',)) if 'rot' not in k.tags]
+    seqk = [k for k in kinds_with(seq=True, include=('extra',)) if 'simonly' not in k.tags]
+    if kf.excluded('asyncmem-write-through'):
+        comb = [k for k in comb if k.name != 'AsynchronousMemory']
+    if kf.excluded('dualport-verilog-body'):
+        seqk = [k for k in seqk if k.name != 'DualPortSynchronousMemory']
     return comb, seqk
 
 
@@ -93,7 +98,7 @@ def predicates(d):
     return ':port-alias' if port_alias_nodes(d) else ''
 
 
-def cosim(scn, log, st, zero_powerup=False):
+def cosim(scn, log, st, zero_powerup=False, collect_all=False):
     d = scn['design']
     b = netlist.Built(d).build(scn['order'])
     if scn.get('perm') is not None:
@@ -148,6 +153,15 @@ def cosim(scn, log, st, zero_powerup=False):
 
     def compare(step, where):
         bad = netlist.update_poison(b)          # downstream of a division by zero: unspecified on both sides
+        if collect_all:
+            wrong = []
+            for ref, vname in outs:
+                if bad and netlist.parse_ref(ref)[1] in bad:
+                    continue
+                vv, xm = vs.get(vname)
+                if xm or vv != b.wires[ref].get():
+                    wrong.append(netlist.parse_ref(ref)[1])
+            return (step, wrong, '') if wrong else None
         for ref, vname in outs:
             if bad and netlist.parse_ref(ref)[1] in bad:
                 continue
@@ -206,12 +220,25 @@ def run(scn, log, st):
     if m is None:
         return
     step, kind, detail = m
-    # attribution: does the mismatch disappear when uninitialised Verilog storage powers up as 0?
     from ..core import EventLog, Stats
+    # blame: expose every node output as a top-level output and name the first node in dataflow
+    # order whose output differs at the first failing cycle
+    d = scn['design']
+    allrefs = ['n%d.%d' % (n['id'], k) for n in d['nodes'] for k in range(len(n['ow']))]
+    try:
+        mb = cosim(dict(scn, design=dict(d, outputs=allrefs)), EventLog(), Stats(), collect_all=True)
+        if mb is not None:
+            wrong = set(mb[1])
+            for n in netlist.RefModel(d).order:
+                if n['id'] in wrong:
+                    kind = n['kind']
+                    break
+    except Exception:
+        pass
+    # attribution: does the mismatch disappear when uninitialised Verilog storage powers up as 0?
     m2 = cosim(scn, EventLog(), Stats(), zero_powerup=True)
     if m2 is None:
-        stor = sorted({n['kind'] for n in scn['design']['nodes'] if n['kind'] in ('SynchronousMemory', 'AsynchronousMemory')})
-        raise Violation('cosim-mismatch', 'cosim:uninit-storage:%s' % '+'.join(stor), step, detail + ' [disappears when uninitialised Verilog storage powers up as 0]')
+        raise Violation('cosim-mismatch', 'cosim:uninit-storage:%s' % kind, step, detail + ' [disappears when uninitialised Verilog storage powers up as 0]')
     raise Violation('cosim-mismatch', 'cosim:%s%s' % (kind, predicates(scn['design'])), step, detail)
 
 
